@@ -157,6 +157,25 @@ func allStrings(alphabet []byte, maxLen int, f func(string)) {
 	rec(nil)
 }
 
+// probeCase: the well-known envelope sent behind a rejected one on the same TCP connection, with what Receive made
+// of it there.
+func probeCase(a tcpAnomaly) *c01Case {
+	var m lime.Message
+	b := []byte(`{"id":"probe","type":"text/plain","content":"p"}`)
+	_ = json.Unmarshal(b, &m)
+	pe, _ := envOf(&m)
+	c := &c01Case{Form: "env", Env: pe, Broken: "received on a connection behind the rejected input " + a.After, JSON: string(b)}
+	oj := coqfmt.None
+	if t, err := parseJ(b); err == nil {
+		oj = coqfmt.Some(t.Coq())
+	}
+	typed := decodeTyped("msg", b)
+	got := a.Got
+	c.Typed, c.Any = &typed, &got
+	c.term = coqfmt.App("CEnv", pe.Coq(), coqURITable(nil), oj, typed.Coq(), got.Coq(), coqfmt.None)
+	return c
+}
+
 func runC01(env *Env) error {
 	env.Header = codecHeader + "Corr.Codec Corr.C01."
 	env.ShardSize = 300
@@ -166,6 +185,12 @@ func runC01(env *Env) error {
 		env.Add(c.term, c)
 		env.Count("form=" + c.Form)
 	}
+	defer func() {
+		for _, a := range tcpPathAnomalies {
+			add(probeCase(a))
+		}
+		tcpPathAnomalies = nil
+	}()
 	var rc c01Case
 	if ok, err := env.ReplayDesc(&rc); err != nil {
 		return err
